@@ -97,11 +97,13 @@ impl LockFile {
         // Check if lock file exists
         if lock_path.exists() {
             // Read existing lock file
-            let mut content = String::new();
+            // (bytes that are not UTF-8 cannot be a lock we wrote: they end up unparsable below)
+            let mut bytes = Vec::new();
             File::open(&lock_path)
                 .context("Failed to read lock file")?
-                .read_to_string(&mut content)
+                .read_to_end(&mut bytes)
                 .context("Failed to read lock file content")?;
+            let content = String::from_utf8_lossy(&bytes);
 
             // Parse lock file content (format: "pid:timestamp")
             let parts: Vec<&str> = content.trim().split(':').collect();
